@@ -114,3 +114,9 @@ chk("C13", "model_checking", "E4",
     "For every digraph over {bias, input, output, hidden} (thorough: also all 2^15 digraphs with two hidden nodes) in two variants, for the standard network and the fast solver built from the same genome, every history h of length <= 2 (3 thorough) over {Load x2, Forward(1), Forward(2), Recursive, Relax / Depth queries} followed by Flush and every continuation s of length <= 3 is executed; outputs, results and errors after every step of s must equal, bit for bit, those of s on a freshly built instance.",
     "Node sets of 4-5 nodes; two input values; observations through the public solver interface only.",
     "DESIGN.md section 3 C13")
+
+chk("C15", "exploration", "E4",
+    "bounded-exhaustive enumeration of written objects (genomes with every hard float in every position, all activation types, GenomeSpace states, all small populations, all small feed-forward models, small experiments) through every encoding, bit-exact comparison",
+    "Genomes (start, corner, unusual layouts, every gene weight / mutation number / trait parameter replaced in turn by every value of a 21-value hard-float alphabet, every scalar activation type, trait-reference patterns, GenomeSpace states of three families, modular genomes) through plain Write->Read / ReadGenome and YAML; organisms through MarshalBinary/UnmarshalBinary; every multiset of <= 3 genomes of a 6-member family through Population.Write->ReadPopulation; all 2^9 small feed-forward models plus a modular one through WriteModel->ReadFMNSModel with bit-equal outputs; experiments (all single-trial shapes of <= 2/3 generations and combinations) through Write->Read with records, champions and 8 derived statistics compared.",
+    "Alphabets bounded; sign of a zero weight not compared; experiment records always carry a champion.",
+    "DESIGN.md section 3 C15")
